@@ -36,7 +36,7 @@ func init() {
 	register("C15", "R7 over schema reconstruction.", r7(scIntrospect), r6(scIntrospect, 5))
 	register("C11", "", r6(scQueryer, 8), ruleAMR)
 	detectors := []ruleFn{ruleErrorsBeforeData("queryer.(*MultiOpQueryer).queryBatch", "pebbles.(*subscriptionEntry).prepareResponse"), ruleStatusCheck, ruleCountCheck, ruleNodeChecks}
-	register("C10", "", ruleGate, ruleCallers(nil), ruleGoSites, r6(scHTTP, 40), detectors[0])
+	register("C10", "", ruleGate, ruleOperationSelection, ruleCallers(nil), ruleGoSites, r6(scHTTP, 40), detectors[0])
 	register("C09", "", detectors...)
 	register("C17", "", detectors[0])
 	batch := []ruleFn{ruleResultIndex, ruleClosureIsolation, ruleRespondOnce, ruleSemaphorePairing(scHTTP), ruleGoSites}
@@ -74,5 +74,8 @@ func init() {
 	register("C02", "", ruleASTWrites)
 	register("C14", "", ruleASTWrites)
 	register("C01", "", ruleASTWrites)
+	register("C09", "", ruleCancelOwnership, ruleSemaphorePairing(scDownstream))
+	register("C08", "", ruleCancelOwnership)
+	register("C18", "", ruleCancelOwnership)
 	register("X6", "debug: R6 over whole module", ruleErr(errScope{label: "all", pkgs: []string{"pebbles", "common", "executor", "format", "gqlerrors", "introspection", "merger", "planner", "queryer", "requests"}}))
 }
